@@ -617,7 +617,7 @@ pub fn build() -> Property {
                18 RDH sanity entries (header id, size, FEE layer 7 / stave 48..63 / each reserved bit, priority, reserved words, BC 0xDEC.., stop bit > 1, trigger 0 / each spare bit, detector bits 12..23, DW 2.., format 3.., system id), \
                4 RDH running entries (pages counter, trigger / orbit changed inside an HBF, same orbit after stop), padding > 15, identifier and reserved-bit rules of IHW/TDH/TDT/DDW0 (+ TDH without trigger, DDW0 index), unknown identifiers in the three choice states \
                with boundary ids, lane not active, OB input 7, DDW0 with stop 0 / page 0, IHW on a stop page, continuation bit wrong either way, continuation TDH differing in bc / orbit / type, TDH orbit / bc / type vs RDH, decreasing TDH bc, CDW index not reset, stave-level frame without data / lane missing / chip bunch counter / inner-barrel chip id. \
-               Each mutation is made on the spec so that everything else stays conforming. Executed on the real CLI in all five modes with -E n. Oracle: in every mode where the rule is documented as active an error of the family at the layout-map offset of the mutated RDH / word \
+               Each mutation is made on the spec so that everything else stays conforming. Executed on the real CLI in all five modes with -E n (a share of the runs with neutral options: -v 0/2/3, -d, -e 0, a custom-checks file whose keys are absent or agree with the data). Oracle: in every mode where the rule is documented as active an error of the family at the layout-map offset of the mutated RDH / word \
                and exit n; a purely stateful entry is not reported by `check sanity*`, which stay completely silent (exit 0). Follow-on errors elsewhere are allowed. Distinct = (entry, value class, position class, mode).",
         assumptions: vec![
             "RDH0 fields of the very first packet (documented pre-check), header-id change on a link's first packet and page-counter entries inside a link's first two packets are outside the domain".into(),
